@@ -192,10 +192,13 @@ def Strm.cancel (st : Store) (s : Strm) : Strm :=
   match s.phase with
   | .done _ => s
   | .idle =>
-    -- the refusal check comes before the first look at the context
-    match (s.start st).phase with
-    | .done e => { s with phase := .done e }
-    | _ => { s with phase := .done .canceled, attached := false }
+    match st with
+    | .bolt _ => { s with phase := .done .canceled }    -- both bolt stores look at the context first in `Last`
+    | .mem _ =>
+      -- memdb does not: the refusal check comes before the first look at the context
+      match (s.start st).phase with
+      | .done e => { s with phase := .done e }
+      | _ => { s with phase := .done .canceled, attached := false }
   | _ => { s with phase := .done .canceled, attached := false }
 
 def Strm.sendFail (s : Strm) : Strm :=
@@ -263,12 +266,16 @@ inductive Effect where
   | none | add | remove
   deriving DecidableEq, Repr
 
-def effectOf (e : Own) (before after : Strm) : Effect :=
+def Store.isMem : Store → Bool
+  | .mem _ => true
+  | .bolt _ => false
+
+def effectOf (isMem : Bool) (e : Own) (before after : Strm) : Effect :=
   match e, before.phase, after.phase with
   | .register, .scanned, _ => .add
   | .cancel, .live, _ => .remove
   | .cancel, .scanned, _ => .add            -- AddCallback runs, then ctx.Done removes it again
-  | .cancel, .idle, .done .canceled => if before.frm = 0 then .add else .none
+  | .cancel, .idle, .done .canceled => if before.frm = 0 && isMem then .add else .none
   | .sendFail, .live, .done .sendError => .remove
   | _, _, _ => .none
 
@@ -280,7 +287,7 @@ def Net.own (h : Handover) (n : Net) (sid : String) (ev : Own) : Net :=
   | none => n
   | some me =>
     let after := ((Sys.step h ⟨n.store, me.s⟩ ev.toEv)).s
-    let eff := effectOf ev me.s after
+    let eff := effectOf n.store.isMem ev me.s after
     { n with streams := n.streams.map fun e =>
         if e.sid == sid then { e with s := after }
         else if e.addr == me.addr then
